@@ -43,6 +43,9 @@ type LoopSpec struct {
 	Key        string // function key
 	Ordinal    int
 	Invariants []Clause
+	// BackAsserts: checked at every back edge (end of an iteration that continues), never assumed:
+	// "an iteration only continues if ..." - for loops that leave through a return in the body
+	BackAsserts []Clause
 }
 
 type SpecFunc struct {
@@ -476,7 +479,7 @@ func (p *parser) primary() *Expr {
 // ---------- file parsing ----------
 
 var declKeywords = map[string]bool{"storage-interfaces": true, "storage-lookups": true, "immutable": true, "func": true, "extern": true, "interface": true, "loop": true, "spec": true, "ghost": true, "axiom": true, "lemma": true}
-var clauseKeywords = map[string]bool{"requires": true, "ensures": true, "defines": true, "modifies": true, "pure": true, "effectful": true, "trusted": true, "invariant": true, "noinline": true, "params": true, "unframed": true}
+var clauseKeywords = map[string]bool{"requires": true, "ensures": true, "defines": true, "modifies": true, "pure": true, "effectful": true, "trusted": true, "invariant": true, "continues-only-if": true, "noinline": true, "params": true, "unframed": true}
 
 // ParseContractText parses the //@ lines of one file.
 func (C *Contracts) ParseContractText(origin, text string) {
@@ -629,7 +632,7 @@ func (C *Contracts) ParseContractText(origin, text string) {
 				continue
 			}
 			C.Lemmas = append(C.Lemmas, &Lemma{Label: lab, Expr: e, Src: rest, Axiom: el.kw == "axiom"})
-		case "requires", "ensures", "invariant", "defines":
+		case "requires", "ensures", "invariant", "defines", "continues-only-if":
 			lab, rest := splitLabel(el.rest)
 			e, err := parseExpr(rest)
 			if err != nil {
@@ -640,6 +643,11 @@ func (C *Contracts) ParseContractText(origin, text string) {
 			lab = strings.TrimSuffix(lab, "!")
 			cl := Clause{NoCover: noCover, Label: lab, Expr: e, Src: rest, UsesCallres: strings.Contains(rest, "callres(") || strings.Contains(rest, "callarg(") || strings.Contains(rest, "called(") || strings.Contains(rest, "calledAny(") || strings.Contains(rest, "lastres(") || strings.Contains(rest, "lastarg(")}
 			switch {
+			case el.kw == "continues-only-if" && curL != nil:
+				if cl.Label == "" {
+					cl.Label = fmt.Sprintf("c%d", len(curL.BackAsserts)+1)
+				}
+				curL.BackAsserts = append(curL.BackAsserts, cl)
 			case el.kw == "invariant" && curL != nil:
 				if cl.Label == "" {
 					cl.Label = fmt.Sprint(len(curL.Invariants) + 1)
